@@ -14,10 +14,10 @@ open Rio.Scan Rio.Regex
 
 variable {ι V : Type} [DecidableEq ι]
 
-def LazyRegex.strip (rx : LazyRegex) : LazyRegex := { rx with compiled := false }
+def LazyRegex.strip (rx : LazyRegex) : LazyRegex := { rx with compiled := none }
 
 mutual
-/-- The tree with every `compiled` flag cleared. -/
+/-- The tree with every cached regex value dropped (`compiled = None` everywhere). -/
 def Item.strip : Item ι V → Item ι V
   | .empty ic => .empty ic
   | .leaf rx vs => .leaf rx.strip vs
@@ -39,7 +39,8 @@ theorem stripL_eq (cs : List (Item ι V)) : stripL cs = cs.map Item.strip := by
   rw [Item.strip, stripL_eq]
 
 @[simp] theorem strip_original (rx : LazyRegex) : rx.strip.original = rx.original := rfl
-@[simp] theorem strip_isLeaf (rx : LazyRegex) : rx.strip.isLeaf = rx.isLeaf := rfl
+@[simp] theorem strip_regex (rx : LazyRegex) : rx.strip.regex = rx.regex := rfl
+@[simp] theorem strip_compiled (rx : LazyRegex) : rx.strip.compiled = none := rfl
 @[simp] theorem strip_ic (rx : LazyRegex) : rx.strip.ic = rx.ic := rfl
 @[simp] theorem compile_strip (E : Engine) (rx : LazyRegex) : (rx.compile E).strip = rx.strip := rfl
 
@@ -54,25 +55,36 @@ theorem childOk_strip (q : List Char) (t : Item ι V) : childOk q t.strip = chil
   | leaf rx vs => rw [strip_leaf]; rfl
   | node rx cs => rw [strip_node]; rfl
 
-theorem inv_strip (ic : Bool) (t : Item ι V) : t.strip.inv ic = t.inv ic := by
+theorem strip_consistent (rx : LazyRegex) : rx.strip.consistent = true := rfl
+
+theorem leafWf_strip {rx : LazyRegex} (h : rx.leafWf = true) : rx.strip.leafWf = true := by
+  rw [leafWf_iff] at *; exact ⟨h.1, rfl⟩
+
+theorem nodeWf_strip {rx : LazyRegex} (h : rx.nodeWf = true) : rx.strip.nodeWf = true := by
+  rw [nodeWf_iff] at *; exact ⟨h.1, rfl⟩
+
+/-- Two trees that differ only in cached values have the same invariant as soon as their `LazyRegex`es are equally
+well-formed; the structural part of the invariant does not read the cache.  (`strip` itself makes every cache
+consistent, so `t.strip.inv = t.inv` does NOT hold for a tree with a stale cached value: only this direction.) -/
+theorem inv_strip (ic : Bool) (t : Item ι V) (h : t.inv ic = true) : t.strip.inv ic = true := by
   induction t using Item.ind with
-  | hE ic' => simp
-  | hL rx vs => simp [Item.inv]
+  | hE ic' => simpa using h
+  | hL rx vs =>
+    obtain ⟨h1, h2, h3, h4⟩ := inv_leaf_iff.1 h
+    rw [strip_leaf]; exact inv_leaf_iff.2 ⟨leafWf_strip h1, h2, h3, h4⟩
   | hN rx cs ih =>
-    rw [strip_node]
-    simp only [Item.inv, strip_isLeaf, strip_ic, strip_original, List.length_map, List.all_map,
-      List.map_map]
-    have h1 : (cs.all (childOk rx.original ∘ Item.strip)) = cs.all (childOk rx.original) := by
-      apply List.all_congr rfl; intro c; simp [childOk_strip]
-    have h2 : List.map (Item.regex ∘ Item.strip) cs = List.map Item.regex cs := by
-      apply List.map_congr_left; intro c _; simp [regex_strip]
-    have h3 : invL ic (cs.map Item.strip) = invL ic cs := by
-      rw [Bool.eq_iff_iff, invL_iff, invL_iff]
-      simp only [List.mem_map, forall_exists_index, and_imp, forall_apply_eq_imp_iff₂]
-      constructor
-      · intro h c hc; rw [← ih c hc]; exact h c hc
-      · intro h c hc; rw [ih c hc]; exact h c hc
-    rw [h1, h2, h3]
+    obtain ⟨h1, h2, h3, h4, h5, h6, h7⟩ := inv_node_iff.1 h
+    rw [strip_node, inv_node_iff]
+    refine ⟨nodeWf_strip h1, h2, h3, by simpa using h4, ?_, ?_, ?_⟩
+    · intro c hc
+      obtain ⟨d, hd, rfl⟩ := List.mem_map.1 hc
+      rw [strip_original, childOk_strip]; exact h5 d hd
+    · have : (cs.map Item.strip).map Item.regex = cs.map Item.regex := by
+        rw [List.map_map]; exact List.map_congr_left fun c _ => by simp [regex_strip]
+      rw [this]; exact h6
+    · intro c hc
+      obtain ⟨d, hd, rfl⟩ := List.mem_map.1 hc
+      exact ih d hd (h7 d hd)
 
 theorem contents_strip (t : Item ι V) : t.strip.contents = t.contents := by
   induction t using Item.ind with
@@ -93,27 +105,26 @@ theorem get_strip (t : Item ι V) (p : List Char) : t.strip.get p = t.get p := b
 theorem len_strip (t : Item ι V) : t.strip.len = t.len := by
   rw [len_spec, len_spec, contents_strip]
 
-/-- `LazyRegex::is_match` does not depend on whether the regex is cached, except for a leaf with the
-empty pattern. -/
-theorem isMatch_strip (E : Engine) (rx : LazyRegex) (h : rx.isLeaf = false ∨ rx.original ≠ [])
+/-- `LazyRegex::is_match` does not depend on whether the regex is cached – *because* the cached value of a well-formed
+regex is the one `create_regex` builds from its fields – except for a leaf with the empty pattern. -/
+theorem isMatch_strip (E : Engine) (rx : LazyRegex)
+    (h : rx.nodeWf = true ∨ (rx.leafWf = true ∧ rx.original ≠ []))
     (s : List Char) : rx.strip.isMatch E s = rx.isMatch E s := by
-  rcases h with h | h
-  · rw [isMatch_node E h, isMatch_node E (by simpa using h)]; simp
-  · cases hl : rx.isLeaf with
-    | false => rw [isMatch_node E hl, isMatch_node E (by simpa using hl)]; simp
-    | true => rw [isMatch_leaf E hl h, isMatch_leaf E (by simpa using hl) (by simpa using h)]; simp
+  rcases h with h | ⟨h, hne⟩
+  · rw [isMatch_node E h, isMatch_node E (nodeWf_strip h)]; simp
+  · rw [isMatch_leaf E h hne, isMatch_leaf E (leafWf_strip h) (by simpa using hne)]; simp
 
 theorem find_strip (E : Engine) {ic : Bool} (t : Item ι V) (h : t.inv ic = true)
     (hne : ∀ e ∈ t.contents, e.pat ≠ []) (s : List Char) : t.strip.find E s = t.find E s := by
   induction t using Item.ind with
   | hE ic' => simp
   | hL rx vs =>
-    obtain ⟨_, _, h3, _⟩ := inv_leaf_iff.1 h
+    obtain ⟨h1, _, h3, _⟩ := inv_leaf_iff.1 h
     have : rx.original ≠ [] := by
       cases vs with
       | nil => exact absurd rfl h3
       | cons kv _ => exact hne ⟨rx.original, kv.1, kv.2⟩ (by simp)
-    rw [strip_leaf, find_leaf, find_leaf, isMatch_strip E rx (Or.inr this)]
+    rw [strip_leaf, find_leaf, find_leaf, isMatch_strip E rx (Or.inr ⟨h1, this⟩)]
   | hN rx cs ih =>
     obtain ⟨h1, _, _, _, _, _, h7⟩ := inv_node_iff.1 h
     rw [strip_node, find_node, find_node, isMatch_strip E rx (Or.inl h1), findL_eq, findL_eq, List.flatMap_map]
@@ -122,13 +133,32 @@ theorem find_strip (E : Engine) {ic : Bool} (t : Item ι V) (h : t.inv ic = true
 
 /-! ### cache -/
 
+theorem compile_leafWf (E : Engine) (rx : LazyRegex) (h : rx.compiled = none) :
+    (rx.compile E).leafWf = rx.leafWf ∧ (rx.compile E).nodeWf = rx.nodeWf := by
+  have hc : (rx.compile E).consistent = true := by
+    rw [consistent_iff]
+    intro c hc
+    simp only [LazyRegex.compile, LazyRegex.createRegex] at hc
+    split at hc
+    · simp only [Option.some.injEq] at hc; exact hc.symm
+    · simp at hc
+  have hc0 : rx.consistent = true := by unfold LazyRegex.consistent; rw [h]
+  simp only [LazyRegex.leafWf, LazyRegex.nodeWf, hc, hc0]
+  exact ⟨rfl, rfl⟩
+
+/-- `Leaf::cache` / the head of `Node::cache`: the result differs from the input only in the cached value, which – when it
+was written – is `create_regex()` of the unchanged fields: well-formedness (consistency included) is untouched. -/
 theorem rxCache_spec (E : Engine) (rx : LazyRegex) {left : Nat} (h : left ≠ 0) :
-    ∃ rx' n, rxCache E rx left = some (rx', n) ∧ rx'.strip = rx.strip ∧ n ≤ left := by
-  by_cases h1 : rx.compiled = true
-  · exact ⟨rx, left, by simp [rxCache, h1], rfl, Nat.le_refl _⟩
-  · by_cases h2 : (rx.compile E).compiled = true
-    · exact ⟨rx.compile E, left - 1, by simp [rxCache, h1, h2, h], rfl, Nat.sub_le _ _⟩
-    · exact ⟨rx.compile E, left, by simp [rxCache, h1, h2], rfl, Nat.le_refl _⟩
+    ∃ rx' n, rxCache E rx left = some (rx', n) ∧ rx'.strip = rx.strip ∧ n ≤ left ∧
+      rx'.leafWf = rx.leafWf ∧ rx'.nodeWf = rx.nodeWf := by
+  by_cases h1 : rx.isCompiled = true
+  · exact ⟨rx, left, by simp [rxCache, h1], rfl, Nat.le_refl _, rfl, rfl⟩
+  · have hnone : rx.compiled = none := by
+      unfold LazyRegex.isCompiled at h1; cases hc : rx.compiled <;> simp_all
+    have hw := compile_leafWf E rx hnone
+    by_cases h2 : (rx.compile E).isCompiled = true
+    · exact ⟨rx.compile E, left - 1, by simp [rxCache, h1, h2, h], rfl, Nat.sub_le _ _, hw.1, hw.2⟩
+    · exact ⟨rx.compile E, left, by simp [rxCache, h1, h2], rfl, Nat.le_refl _, hw.1, hw.2⟩
 
 theorem cache_empty (E : Engine) (ic : Bool) (left lvl cur : Nat) :
     (Item.empty ic : Item ι V).cache E left lvl cur = some (.empty ic, left) := by rw [Item.cache]
@@ -145,77 +175,145 @@ theorem cacheL_cons (E : Engine) (c : Item ι V) (cs : List (Item ι V)) (left l
         | none => none
         | some r' => some (r.1 :: r'.1, r'.2) := by rw [cacheL]; rfl
 
-/-- `Item::cache` never underflows, returns a budget ≤ its input, and only changes `compiled` flags. -/
-theorem cache_spec (E : Engine) (t : Item ι V) (left lvl cur : Nat) :
-    ∃ t' n, t.cache E left lvl cur = some (t', n) ∧ t'.strip = t.strip ∧ n ≤ left := by
+/-- Children that are equal after `strip` and have the same invariant can be exchanged inside a node. -/
+theorem inv_node_congr {ic : Bool} {rx rx' : LazyRegex} {cs cs' : List (Item ι V)}
+    (hs : rx'.strip = rx.strip) (hw : rx'.nodeWf = rx.nodeWf)
+    (hcs : cs'.map Item.strip = cs.map Item.strip)
+    (hinv : ∀ i (h : i < cs.length) (h' : i < cs'.length), (cs'[i]).inv ic = (cs[i]).inv ic) :
+    (Item.node rx' cs' : Item ι V).inv ic = (Item.node rx cs).inv ic := by
+  have hlen : cs'.length = cs.length := by simpa using congrArg List.length hcs
+  have horig : rx'.original = rx.original := by simpa using congrArg LazyRegex.original hs
+  have hic : rx'.ic = rx.ic := by simpa using congrArg LazyRegex.ic hs
+  have hchild : ∀ q, cs'.all (childOk q) = cs.all (childOk q) := by
+    intro q
+    have := congrArg (fun l => l.all (childOk q)) hcs
+    simpa [List.all_map, Function.comp_def, childOk_strip] using this
+  have hreg : cs'.map Item.regex = cs.map Item.regex := by
+    have := congrArg (fun l => l.map Item.regex) hcs
+    simpa [List.map_map, Function.comp_def, regex_strip] using this
+  have hL : invL ic cs' = invL ic cs := by
+    rw [Bool.eq_iff_iff, invL_iff, invL_iff]
+    constructor
+    · intro h c hc
+      obtain ⟨i, hi, rfl⟩ := List.getElem_of_mem hc
+      rw [← hinv i hi (by omega)]; exact h _ (List.getElem_mem _)
+    · intro h c hc
+      obtain ⟨i, hi, rfl⟩ := List.getElem_of_mem hc
+      rw [hinv i (by omega) hi]; exact h _ (List.getElem_mem _)
+  simp only [Item.inv, hw, hic, horig, hlen, hchild, hreg, hL]
+
+/-- `Item::cache` never underflows, returns a budget ≤ its input, changes nothing but cached values, and keeps the
+invariant exactly (every value it stores is `create_regex()` of the fields it sits next to). -/
+theorem cache_spec_inv (E : Engine) (t : Item ι V) (left lvl cur : Nat) :
+    ∃ t' n, t.cache E left lvl cur = some (t', n) ∧ t'.strip = t.strip ∧ n ≤ left ∧
+      ∀ ic, t'.inv ic = t.inv ic := by
   induction t using Item.ind generalizing left lvl cur with
-  | hE ic => exact ⟨_, _, cache_empty E ic left lvl cur, rfl, Nat.le_refl _⟩
+  | hE ic => exact ⟨_, _, cache_empty E ic left lvl cur, rfl, Nat.le_refl _, fun _ => rfl⟩
   | hL rx vs =>
     rw [Item.cache]
     by_cases h0 : left = 0
-    · simp only [h0, if_true]; exact ⟨_, _, rfl, rfl, Nat.le_refl _⟩
+    · simp only [h0, if_true]; exact ⟨_, _, rfl, rfl, Nat.le_refl _, fun _ => rfl⟩
     · simp only [h0, if_false]
       split
-      · exact ⟨_, _, rfl, rfl, Nat.le_refl _⟩
+      · exact ⟨_, _, rfl, rfl, Nat.le_refl _, fun _ => rfl⟩
       · split
-        · obtain ⟨rx', n, he, hs, hn⟩ := rxCache_spec E rx h0
+        · obtain ⟨rx', n, he, hs, hn, hw, _⟩ := rxCache_spec E rx h0
           rw [he]
-          exact ⟨_, _, rfl, by simp [hs], hn⟩
-        · exact ⟨_, _, rfl, rfl, Nat.le_refl _⟩
+          refine ⟨_, _, rfl, by simp [hs], hn, fun ic => ?_⟩
+          have hic : rx'.ic = rx.ic := by simpa using congrArg LazyRegex.ic hs
+          simp only [Item.inv, hw, hic]
+        · exact ⟨_, _, rfl, rfl, Nat.le_refl _, fun _ => rfl⟩
   | hN rx cs ih =>
     have key : ∀ (l : List (Item ι V)), (∀ c ∈ l, c ∈ cs) → ∀ left lvl cur,
-        ∃ l' n, cacheL E l left lvl cur = some (l', n) ∧ l'.map Item.strip = l.map Item.strip ∧ n ≤ left := by
+        ∃ l' n, cacheL E l left lvl cur = some (l', n) ∧ l'.map Item.strip = l.map Item.strip ∧ n ≤ left ∧
+          ∀ ic i (h : i < l.length) (h' : i < l'.length), (l'[i]).inv ic = (l[i]).inv ic := by
       intro l
       induction l with
-      | nil => intro _ left lvl cur; exact ⟨[], left, cacheL_nil E left lvl cur, rfl, Nat.le_refl _⟩
+      | nil =>
+        intro _ left lvl cur
+        exact ⟨[], left, cacheL_nil E left lvl cur, rfl, Nat.le_refl _, fun _ i h => by simp at h⟩
       | cons c l ihl =>
         intro hsub left lvl cur
-        obtain ⟨c', n1, h1, hs1, hn1⟩ := ih c (hsub c (by simp)) left lvl cur
-        obtain ⟨l', n2, h2, hs2, hn2⟩ := ihl (fun d hd => hsub d (by simp [hd])) n1 lvl cur
-        refine ⟨c' :: l', n2, ?_, by simp [hs1, hs2], Nat.le_trans hn2 hn1⟩
-        rw [cacheL_cons, h1]; simp only; rw [h2]
+        obtain ⟨c', n1, h1, hs1, hn1, hi1⟩ := ih c (hsub c (by simp)) left lvl cur
+        obtain ⟨l', n2, h2, hs2, hn2, hi2⟩ := ihl (fun d hd => hsub d (by simp [hd])) n1 lvl cur
+        refine ⟨c' :: l', n2, ?_, by simp [hs1, hs2], Nat.le_trans hn2 hn1, ?_⟩
+        · rw [cacheL_cons, h1]; simp only; rw [h2]
+        · intro ic i h h'
+          cases i with
+          | zero => simpa using hi1 ic
+          | succ i => simpa using hi2 ic i (by simpa using h) (by simpa using h')
     rw [Item.cache]
     by_cases h0 : left = 0
-    · simp only [h0, if_true]; exact ⟨_, _, rfl, rfl, Nat.le_refl _⟩
+    · simp only [h0, if_true]; exact ⟨_, _, rfl, rfl, Nat.le_refl _, fun _ => rfl⟩
     · simp only [h0, if_false]
       split
-      · exact ⟨_, _, rfl, rfl, Nat.le_refl _⟩
+      · exact ⟨_, _, rfl, rfl, Nat.le_refl _, fun _ => rfl⟩
       · have hrx : ∃ rx' n, (if lvl = cur then rxCache E rx left else some (rx, left)) = some (rx', n) ∧
-            rx'.strip = rx.strip ∧ n ≤ left := by
+            rx'.strip = rx.strip ∧ n ≤ left ∧ rx'.nodeWf = rx.nodeWf := by
           split
-          · exact rxCache_spec E rx h0
-          · exact ⟨rx, left, rfl, rfl, Nat.le_refl _⟩
-        obtain ⟨rx', n1, he, hs, hn1⟩ := hrx
+          · obtain ⟨rx', n, he, hs, hn, _, hw⟩ := rxCache_spec E rx h0
+            exact ⟨rx', n, he, hs, hn, hw⟩
+          · exact ⟨rx, left, rfl, rfl, Nat.le_refl _, rfl⟩
+        obtain ⟨rx', n1, he, hs, hn1, hw⟩ := hrx
         rw [he]
         simp only
-        obtain ⟨l', n2, h2, hs2, hn2⟩ := key cs (fun _ h => h) n1 lvl (cur + 1)
+        obtain ⟨l', n2, h2, hs2, hn2, hi2⟩ := key cs (fun _ h => h) n1 lvl (cur + 1)
         rw [h2]
-        exact ⟨_, _, rfl, by simp [hs, hs2], Nat.le_trans hn2 hn1⟩
+        exact ⟨_, _, rfl, by simp [hs, hs2], Nat.le_trans hn2 hn1,
+          fun ic => inv_node_congr hs hw hs2 (hi2 ic)⟩
+
+/-- `Item::cache` never underflows, returns a budget ≤ its input, and only changes cached values. -/
+theorem cache_spec (E : Engine) (t : Item ι V) (left lvl cur : Nat) :
+    ∃ t' n, t.cache E left lvl cur = some (t', n) ∧ t'.strip = t.strip ∧ n ≤ left := by
+  obtain ⟨t', n, h, hs, hn, _⟩ := cache_spec_inv E t left lvl cur
+  exact ⟨t', n, h, hs, hn⟩
 
 /-- The `while` loop of `RegexTreeMap::cache(limit, None)` terminates within `left + 1` iterations. -/
-theorem cacheLoop_spec (E : Engine) (fuel : Nat) (root : Item ι V) (left lvl : Nat) (hf : left < fuel) :
-    ∃ t' n, cacheLoop E fuel root left lvl = some (t', n) ∧ t'.strip = root.strip ∧ n ≤ left := by
+theorem cacheLoop_spec_inv (E : Engine) (fuel : Nat) (root : Item ι V) (left lvl : Nat) (hf : left < fuel) :
+    ∃ t' n, cacheLoop E fuel root left lvl = some (t', n) ∧ t'.strip = root.strip ∧ n ≤ left ∧
+      ∀ ic, t'.inv ic = root.inv ic := by
   induction fuel generalizing root left lvl with
   | zero => omega
   | succ fuel ih =>
     rw [cacheLoop]
     by_cases h0 : left = 0
-    · simp only [h0, if_true]; exact ⟨_, _, rfl, rfl, Nat.le_refl _⟩
+    · simp only [h0, if_true]; exact ⟨_, _, rfl, rfl, Nat.le_refl _, fun _ => rfl⟩
     · simp only [h0, if_false]
-      obtain ⟨t1, n1, h1, hs1, hn1⟩ := cache_spec E root left lvl 0
+      obtain ⟨t1, n1, h1, hs1, hn1, hi1⟩ := cache_spec_inv E root left lvl 0
       rw [h1]
       simp only
       split
-      · exact ⟨_, _, rfl, hs1, Nat.le_refl _⟩
+      · exact ⟨_, _, rfl, hs1, Nat.le_refl _, hi1⟩
       · next hne =>
-        obtain ⟨t2, n2, h2, hs2, hn2⟩ := ih t1 n1 (lvl + 1) (by omega)
-        exact ⟨t2, n2, h2, by rw [hs2, hs1], by omega⟩
+        obtain ⟨t2, n2, h2, hs2, hn2, hi2⟩ := ih t1 n1 (lvl + 1) (by omega)
+        exact ⟨t2, n2, h2, by rw [hs2, hs1], by omega, fun ic => by rw [hi2, hi1]⟩
+
+theorem cacheLoop_spec (E : Engine) (fuel : Nat) (root : Item ι V) (left lvl : Nat) (hf : left < fuel) :
+    ∃ t' n, cacheLoop E fuel root left lvl = some (t', n) ∧ t'.strip = root.strip ∧ n ≤ left := by
+  obtain ⟨t', n, h, hs, hn, _⟩ := cacheLoop_spec_inv E fuel root left lvl hf
+  exact ⟨t', n, h, hs, hn⟩
+
+/-- `RegexTreeMap::cache(limit, level)`, with the invariant. -/
+theorem treeCache_spec_inv (E : Engine) (root : Item ι V) (limit : Nat) (level : Option Nat) :
+    ∃ t' n, treeCache E root limit level = some (t', n) ∧ t'.strip = root.strip ∧ n ≤ limit ∧
+      ∀ ic, t'.inv ic = root.inv ic := by
+  cases level with
+  | some lvl => exact cache_spec_inv E root limit lvl 0
+  | none => exact cacheLoop_spec_inv E (limit + 1) root limit 0 (by omega)
 
 /-- `RegexTreeMap::cache(limit, level)`. -/
 theorem treeCache_spec (E : Engine) (root : Item ι V) (limit : Nat) (level : Option Nat) :
     ∃ t' n, treeCache E root limit level = some (t', n) ∧ t'.strip = root.strip ∧ n ≤ limit := by
-  cases level with
-  | some lvl => exact cache_spec E root limit lvl 0
-  | none => exact cacheLoop_spec E (limit + 1) root limit 0 (by omega)
+  obtain ⟨t', n, h, hs, hn, _⟩ := treeCache_spec_inv E root limit level
+  exact ⟨t', n, h, hs, hn⟩
+
+/-- The invariant of the tree `cache` returns is that of the tree it was given (both directions): what `cache` stores
+is `create_regex()` of the current fields, and it stores nothing else. -/
+theorem inv_of_treeCache {E : Engine} {t t' : Item ι V} {limit n : Nat} {level : Option Nat}
+    (h : treeCache E t limit level = some (t', n)) (ic : Bool) : t'.inv ic = t.inv ic := by
+  obtain ⟨t'', n', h', _, _, hi⟩ := treeCache_spec_inv E t limit level
+  rw [h] at h'; simp only [Option.some.injEq, Prod.mk.injEq] at h'
+  obtain ⟨rfl, rfl⟩ := h'
+  exact hi ic
 
 end Rio.Tree
